@@ -19,7 +19,7 @@ func init() {
 		Name:  "WALK",
 		Doc:   "every store to a vertex value is one of the known routing forms; no stale snapshot; output mapping and argument population by own label; sibling constructors agree; no fabricated values outside planning mode",
 		Run:   runWalk,
-		Floor: map[string]int{"WALK": 5, "ORDER": 1, "OUTMAP": 3, "ARGPOP": 2, "SIBLING": 2, "FAB": 2},
+		Floor: map[string]int{"WALK": 5, "ORDER": 1, "OUTMAP": 3, "ARGPOP": 2, "SIBLING": 2, "FAB": 2, "BIND": 2},
 	})
 }
 
@@ -187,6 +187,76 @@ func runWalk(c *Ctx) {
 				c.R.Add("WALK", key+"|outside-resolver", name, p.InstrPos(st), false, "vertex values are assigned only by the resolver's walk and the output mapper", "assigned in "+name)
 			}
 		})
+	}
+
+	// ---------------- BIND: a requirement that already carries a value is bound to it when it is classified — its vertex
+	// is shared by every path of the call, so reading the value after converters ran (or after nested resolution
+	// walked other paths) may yield what a sibling left there
+	{
+		type eff struct {
+			in   ssa.Instruction
+			what string
+		}
+		var effects []eff
+		p.RegionInstrs(res, func(in ssa.Instruction) {
+			switch x := in.(type) {
+			case ssa.CallInstruction:
+				if cal := x.Common().StaticCallee(); cal == exec {
+					effects = append(effects, eff{in, "a converter execution"})
+				} else if cal == res {
+					effects = append(effects, eff{in, "nested resolution"})
+				}
+			case *ssa.Store:
+				if fr, ok := core.AsFieldAddr(x.Addr); ok && fr.Field == "Value" && kinds.Label(fr.Owner) && !p.FreshIn(x.Addr) {
+					effects = append(effects, eff{in, "a vertex value assignment"})
+				}
+			}
+		})
+		nb := 0
+		p.RegionInstrs(res, func(in ssa.Instruction) {
+			mu, ok := in.(*ssa.MapUpdate)
+			if !ok || core.TypeStr(mu.Map.Type()) != "map[interface{}]reflect.Value" {
+				return
+			}
+			fr, ok := core.AsFieldLoad(mu.Value)
+			if !ok || fr.Field != "Value" || !kinds.Label(fr.Owner) {
+				return
+			}
+			ta := assertOf(fr.Base)
+			id, isID := mu.Key.(*ssa.Call)
+			if ta == nil || !isID || core.CalleeName(id.Common()) != core.GVertexID || id.Common().Args[0] != ta.X {
+				return
+			}
+			load, _ := mu.Value.(ssa.Instruction)
+			if load == nil {
+				return
+			}
+			nb++
+			late := ""
+			la, _ := p.Anchors(load, res)
+			for _, e := range effects {
+				if e.in.Parent() == load.Parent() {
+					if core.CanFollow(e.in, load) {
+						late = e.what + " at " + p.InstrPos(e.in)
+					}
+					continue
+				}
+				ea, _ := p.Anchors(e.in, res)
+				for _, a := range ea {
+					for _, b := range la {
+						if a != b && core.CanFollow(a, b) {
+							late = e.what + " at " + p.InstrPos(e.in)
+						}
+					}
+				}
+			}
+			c.R.Add("BIND", fmt.Sprintf("resolver|requirement-bound-when-classified#%d", nb), "resolver", p.InstrPos(mu), late == "",
+				"the value of a requirement that needs no path is taken from its vertex before any converter runs or any other path is walked in this resolution (vertices are shared and are overwritten by later walks)",
+				ternary(late == "", "read before every execution, nested resolution and vertex assignment of this resolution", "the vertex value is read after "+late))
+		})
+		if nb == 0 {
+			c.R.Add("BIND", "resolver|requirement-bound-when-classified", "resolver", p.Pos(res.Pos()), false, "requirements that already carry a value are bound directly", "no direct binding found")
+		}
 	}
 
 	// ---------------- ORDER: no stale snapshot
